@@ -57,6 +57,9 @@ OPEN_STATEMENTS = [
     'conversely the CAR force the first block identity (car_implies_constraint).  Not formalised: (a) H equals '
     'sum eps_j b+_j b_j + c for the returned (eps, W, c) (oracle: [H, b+_j] = eps_j b+_j, dense spectrum); (b) completeness '
     '(the 2^n Fock states b+_S|vac> are linearly independent and span the space) - not reached.  The converse for both block identities is proved (car_implies_constraint, car_implies_second_constraint).',
+    'spin sectors / chemical potential at the level of the energy lists: PROVED for all lists (sector_spectrum_is_sum_set, '
+    'sector_ground_energy_additive, sector_default_occupation_splits, chemical_potential_shifts_levels); that the sector energies the '
+    'code returns are the eigenvalues of the block of M - mu is the eigh contract (oracle: sectors stream).',
     'majorana_form operator identity: proved at coefficient level (the four ladder-monomial coefficient matrices of '
     '(i/2) sum A f f equal M, Delta/2, -Delta*/2 and the constant shift); the CAR step from coefficients to operators is '
     'checked by spec.eq on every generated input, not proved.',
